@@ -448,6 +448,30 @@ def run(rep: Report, ctx: Any) -> str:
                           where(m.functions[fn_name], m.functions[fn_name].node), lhs=verdict[1], rhs=f"returns {next(iter(ref_tags))!r} whenever the key is present")
     rep.floor("reference_discriminators", n_disc, 1)
 
+    # ---- R20.13 ------------------------------------------------------------------------------------------------------------
+    # (statement and value flow: c20_positions.py)  While the document is validated no reference is resolved: code of the document model
+    # that looks inside one member of a position declared ReferenceOr[...] acts on inline members only, so whatever it decides or
+    # changes separates a component written inline from the same component used through `$ref`.
+    from .c20_positions import Positions
+
+    rep.rule("R20.13", "the document model treats a position that may hold a reference as a whole: no code that runs while the document "
+                       "is validated (validators of the document classes, their helpers, functions named in Annotated validators, "
+                       "methods of the document classes - followed through locals, copies, views, loops, comprehensions, lambdas, "
+                       "parameters and results of the functions they are handed to) reads an attribute of, asks for the class of, "
+                       "subscripts or stores into one member of a field whose declared type mentions Reference / ReferenceOr - a "
+                       "reference is not resolved there, so only members written inline would be affected")
+    pos = Positions(ix, ctx.flow[0], doc_model)
+    pos.run()
+    for origin in sorted(pos.read | set(pos.inspections)):
+        sites = sorted(pos.inspections.get(origin, ()))
+        rep.check(not sites, "R20.13", f"{origin}::members-not-inspected",
+                  f"the document model looks inside the members of `{origin}` while the document is validated ({[t for _, t in sites][:3]}): a "
+                  "member that is a reference cannot be looked into there, so what is decided or changed applies only to components written "
+                  "inline - the same component used through `$ref` generates other code than its inline twin",
+                  where=sites[0][0] if sites else "", lhs=[f"{w}: {t}" for w, t in sites[:4]], rhs="members are only looked into after the parser has resolved them")
+    rep.floor("reference_positions_handled_by_the_document_model", len(pos.read | set(pos.inspections)), 2)
+    rep.floor("reference_fields_of_document_classes", sum(len(v) for v in pos.ref_fields.values()), 15)
+
     # ---- R20.11 ------------------------------------------------------------------------------------------------------------
     # "A circular reference ... affects nothing else": the walks over the reference registry and the dependency graph (class lookup
     # through references, propagation of a removal to the dependants) run on graphs the document can make cyclic, so every recursive
@@ -484,8 +508,50 @@ def run(rep: Report, ctx: Any) -> str:
     inplace.check(rep, ctx, "R20.9")
     rep.rule("R20.5", "a failing reference affects nothing else: the dependency registry does not alias the caller's roots set")
     check_no_alias(rep, ctx, "R20.5")
+
+    # ---- R20.12 ------------------------------------------------------------------------------------------------------------
+    # A component used through a reference is ONE object of the parsed document, handed to the builders again at every point of use;
+    # its inline twin is a fresh object at every point of use, built once.  The two can only agree if no visit leaves a trace in the
+    # document: whatever a builder stores into a document object (or into a container one holds, through any alias) is seen by the next
+    # use of the component and by no inline twin.  This is C12's R12.5 (the document is read-only outside the schema package), decided
+    # there for every function that reads the document; it is claimed here under C20's id, with C12's construct keys.
+    from .c12 import _document_read_only
+
+    rep.rule("R20.12", "a shared component is parsed at every use, its inline twin once: the parsed document is read-only outside the "
+                       "schema package (no store into an attribute of a document object, no store into / mutating call on / hand-over to a "
+                       "writing function of a container that may be held by one, through locals, `or` / conditional arms, views, helpers' "
+                       "results - unless the function created the object itself); decided by C12's R12.5, same construct keys")
+    _document_read_only(_UnderRule(rep, "R12.5", "R20.12"), ctx)
     rep.not_decided += ["equality of generated code for inline versus referenced components"]
     return LEVEL
+
+
+class _UnderRule:
+    """A report that files what a rule shared with another property decides under this property's rule id (same construct keys)."""
+
+    def __init__(self, rep: Report, theirs: str, ours: str):
+        self._rep, self._theirs, self._ours = rep, theirs, ours
+
+    def _id(self, rid: str) -> str:
+        return rid.replace(self._theirs, self._ours)
+
+    def __getattr__(self, name: str) -> Any:
+        return getattr(self._rep, name)
+
+    def rule(self, rid: str, text: str) -> None:
+        self._rep.rule(self._id(rid), text)
+
+    def ok(self, rule: str, *a: Any, **k: Any) -> None:
+        self._rep.ok(self._id(rule), *a, **k)
+
+    def fail(self, rule: str, *a: Any, **k: Any) -> None:
+        self._rep.fail(self._id(rule), *a, **k)
+
+    def check(self, cond: bool, rule: str, *a: Any, **k: Any) -> bool:
+        return self._rep.check(cond, self._id(rule), *a, **k)
+
+    def control(self, name: str, fired: bool) -> None:
+        self._rep.control(self._id(name), fired)
 
 
 # ---- statements, names ----------------------------------------------------------------------------------------------------
